@@ -45,6 +45,9 @@ pub struct OracleState {
     pub deferred_admissions: Vec<(usize, usize, Vec<u32>)>,
     /// overlapping resizes whose order could not be read off the books yet
     pub max_ambiguous: Option<Vec<usize>>,
+    /// largest resize target invoked so far (whether or not that resize has returned)
+    pub max_target_invoked: usize,
+    pub min_target_invoked: Option<usize>,
 }
 
 impl Default for OracleState {
@@ -74,6 +77,8 @@ impl Default for OracleState {
             parked_pending: Default::default(),
             deferred_admissions: Vec::new(),
             max_ambiguous: None,
+            max_target_invoked: 0,
+            min_target_invoked: None,
         }
     }
 }
@@ -256,7 +261,15 @@ pub fn on_metrics_reported(w: &mut MWorld, id: u32, m: MSeen) {
     }
     w.objs[id as usize].last_reported = Some(m);
 }
-pub fn on_resize_invoke(w: &mut MWorld, opi: usize, _n: usize) {
+pub fn on_resize_invoke(w: &mut MWorld, opi: usize, n: usize) {
+    // a shrink may show from the moment it is invoked (status() sampled while it runs);
+    // with overlapping resizes any target below any earlier limit counts
+    let hi = w.max_size_log.iter().map(|x| x.1).max().unwrap_or(0).max(w.orc.max_target_invoked);
+    if n < hi {
+        w.orc.shrunk = true;
+    }
+    w.orc.max_target_invoked = w.orc.max_target_invoked.max(n);
+    w.orc.min_target_invoked = Some(w.orc.min_target_invoked.map(|m| m.min(n)).unwrap_or(n));
     c07_resize_invoke(w, opi);
 }
 pub fn on_resize_done(w: &mut MWorld, opi: usize, n: usize, closed: bool) {
@@ -551,7 +564,10 @@ fn c11_plausible(w: &mut MWorld, _sn: &Snap) -> Option<Violation> {
     if st.size > bound || st.available > bound || st.waiting > bound || st.max_size > bound {
         return mk("no_wrap", format!("{:?}", st));
     }
-    if st.size > st.max_size && !w.orc.shrunk {
+    // a shrink is any resize target (or close) below any limit that was ever configured or
+    // requested, in whatever order the overlapping calls took effect
+    let shrink_possible = w.orc.shrunk || w.orc.min_target_invoked.map(|lo| lo < w.orc.max_target_invoked.max(w.sc.pool.max_size)).unwrap_or(false);
+    if st.size > st.max_size && !shrink_possible {
         return mk(
             "size_le_max_without_shrink",
             format!("{:?} and no shrink has happened", st),
